@@ -35,6 +35,11 @@ add("C20", "Hypothesis-generated products of an orthogonal two-index tensor; dif
     "value compared exactly on F_p models with U U^T = 1. Out-of-domain class (pairs sharing both indices) and the known finding F8 are excluded by construction and counted.",
     "Trusted: Cayley-transform orthogonal matrices (asserted U U^T = 1 at generation), F_p evaluator.")
 
+add("C16", "Hypothesis-generated terms and limit settings; independent step-by-step interpreter of the returned contraction scheme on an F_p model",
+    "Generated-input search: 1-6 tensors/deltas with exponents, traces, outer products, disconnected groups and hyper-contractions, requested target orders, spins and both limits; "
+    "every returned scheme is executed by an independent interpreter (leaf bookkeeping, index-summed-exactly-once, not-too-early, single final step, target order, value) and its reported scaling is recomputed.",
+    "Trusted: scheme interpreter + F_p evaluator; RuntimeError under explicit limits is a documented refusal. Terms with more than 6 objects are not generated (scheme enumeration is exponential).")
+
 NOT_YET = "check not built yet in this round (planned, see DESIGN.md)"
 
 def main():
